@@ -208,6 +208,12 @@ func (R *Repository) commitStagedCRL(entry *Entry, store crlstore.CRLStore) erro
 	verifhook.Hit("repo.commit.before")
 	err := entry.CRLStore.Update(store)
 	if err != nil {
+		//like a refresh whose swap failed: the staged store is of no use any more
+		store.Close()
+		err2 := store.Delete()
+		if err2 != nil {
+			R.logger.Warn("failed to delete database", zap.Error(err2))
+		}
 		return err
 	}
 	verifhook.Hit("repo.commit.swapped")
